@@ -13,7 +13,7 @@ Streams: 0..5 messages of N x 031031 made by the implementation's Encoder
 (editions 2-4, section 2 present or not, data category 0..5, never 11), separators
 without b'BUFR' (incl. partial signatures), optional trailing noise; optionally
 damaged messages: stop signature overwritten, section 4 length decreased below its
-content ('len4dec') (the damages the theorems cover: the predicate is evaluated), section 1/4 length -k/+k (tie only; a changed section-3
+content ('len4dec'), an undefined descriptor substituted in section 3 ('desc') (the damages the theorems cover: the predicate is evaluated), section 1/4 length -k/+k (tie only; a changed section-3
 length makes the unary-number extracted decoder crawl over a garbage 24-bit length and is
 left to the observation-driven C12 cases).
 Modes: info_only x continue_on_error x {no filter, '${%data_category} == k'}.
@@ -70,6 +70,11 @@ def damage(rng, d, kind):
             x4 = b'7787'
         b[-4:] = x4
         return bytes(b)
+    if kind == 'desc':
+        # the damage of C12_e2e_refused_hyps: an undefined element / sequence descriptor in section 3
+        off = d['offs'][3] + 7 + 2 * rng.randrange(d['n'])
+        b[off:off + 2] = rng.choice([b'\x3f\xff', b'\xff\xff'])       # 063255 / 363255
+        return bytes(b)
     if kind == 'len4dec':
         # the damage of C12_damaged_section4_length: 4 <= v <= sl and 8 v < 32 + data bits
         off = d['offs'][4]
@@ -93,16 +98,16 @@ def make_cases(rng, n_streams, with_damage):
         for d in msgs:
             kind = None
             if with_damage and rng.random() < 0.45:
-                kind = rng.choice(['stop', 'stop', 'stop', 'len4dec', 'len4dec', 'len4', 'len1'])
-                if kind == 'len4dec' and d['n'] == 0:
-                    kind = 'stop'             # an empty data section cannot be overrun
+                kind = rng.choice(['stop', 'stop', 'stop', 'len4dec', 'len4dec', 'desc', 'desc', 'len4', 'len1'])
+                if kind in ('len4dec', 'desc') and d['n'] == 0:
+                    kind = 'stop'             # an empty data section cannot be overrun; no descriptor to replace
             items.append((d, kind, damage(rng, d, kind) if kind else d['bytes'], separator(rng)))
         lead = separator(rng)
         stream = lead + b''.join(b + sp for (_, _, b, sp) in items)
         if rng.random() < 0.3:
             stream += bytes(rng.choice(b'BUF7\x00x') for _ in range(rng.randrange(1, 6))).replace(b'BUFR', b'BUF_')
         kinds = sorted(set(kd for (_, kd, _, _) in items if kd))
-        only_stop = all(kd in (None, 'stop', 'len4dec') for (_, kd, _, _) in items)
+        only_stop = all(kd in (None, 'stop', 'len4dec', 'desc') for (_, kd, _, _) in items)
         modes = [(False, False, None), (True, False, None), (False, True, None)]
         fcat = rng.randrange(0, 6)
         modes.append((rng.random() < 0.5, rng.random() < 0.5, fcat))
@@ -119,7 +124,8 @@ def make_cases(rng, n_streams, with_damage):
                     expect = ([p for p, g in zip(pieces, good) if g], None)
                 else:
                     upto = good.index(False) if False in good else len(good)
-                    expect = (pieces[:upto], None if upto == len(good) else 6)
+                    # PyBufrKitError (6), resp. UnknownDescriptor (2) for a refused descriptor list
+                    expect = (pieces[:upto], None if upto == len(good) else (2 if items[upto][1] == 'desc' else 6))
             elif not kinds and flt is not None:
                 expect = ([b for (d, _, b, _) in items if d['cat'] == flt], None)
             cases.append({'stream': stream, 'info': info, 'coe': coe, 'flt': flt, 'expect': expect,
@@ -220,7 +226,7 @@ def run(ctx, damaged):
         cases = make_cases(rng, ctx.n(80, 600), damaged)
     results = run_cases(ctx, cases, 'C12-e2e-stream' if damaged else 'stream-e2e')
     cross_check(ctx, results, ctx.n(6, 30), '_damaged' if damaged else '')
-    need = ['e2e:mode:full', 'e2e:mode:info', 'e2e:predicate-evaluated', '+filter'] + (['e2e:damage:stop', 'e2e:damage:len4dec'] if damaged else [])
+    need = ['e2e:mode:full', 'e2e:mode:info', 'e2e:predicate-evaluated', '+filter'] + (['e2e:damage:stop', 'e2e:damage:len4dec', 'e2e:damage:desc'] if damaged else [])
     for k in need:
         if not any(x.startswith('e2e:') and k in x and v > 0 for x, v in ctx.dist.items()):
             raise RuntimeError('e2e generator never produced %r: harness defect' % k)
